@@ -3,7 +3,7 @@
 /tmp/mut/<prop>/<m> and store it under /verif/seeded/<prop>-w<wave>-<m>/ with meta.json."""
 import json, os, re, shutil, subprocess, sys
 wave, prop, m = sys.argv[1], sys.argv[2], sys.argv[3]
-src = "/tmp/mut/%s/%s" % (prop, m)
+src = "%s/%s/%s" % (os.environ.get("MUTBASE", "/tmp/mut"), prop, m)
 dst = "/verif/seeded/%s-w%s-%s" % (prop, wave, m)
 r = subprocess.run(["/verif/tools/trymut", prop, src + "/patch.diff"], capture_output=True, text=True)
 out = r.stdout
